@@ -10,6 +10,10 @@ CLAIMED = {
    text="Kernel-checked theorems over the byte-level model of the comment header: round trip for every vendor/comment list (any bytes, empty, NULs), acceptance bound (nothing accepted exceeds the packet), query = n-th ASCII-case-insensitive match, count = number of successful queries. The model is tied to lib/info.c by a differential stream (valid, boundary and malformed packets, add/add_tag, queries).",
    note="Trusted: Lean kernel (axioms propext/Classical.choice/Quot.sound only), extract.py (vendor string, error codes regenerated), the hand-written model as far as the c16 correspondence exercises it, gcc/ASan/libogg. The C's heap behaviour is covered by sanitizer runs only.",
    tech="Lean 4 proof (round-trip + decision logic) over hand model; differential correspondence vs lib/info.c"),
+ "C17": dict(cat="proof", ref="§8 C17",
+   text="Kernel-checked theorems over an integer model of ov_read's conversion defined on IEEE bit patterns: round-to-nearest-even with error <= 1/2 and monotone, exact in-range behaviour, saturation of huge positive samples to the most positive value (F5 regression), output always within the word's range, bytes decode back to the clipped sample for all 8 formats, interleaving offsets, frame counting (whole frames, <= buffer, maximal, errors for short buffers / non-positive word). Tied to lib/vorbisfile.c + lib/os.h by running ov_read_filter on real streams with injected bit patterns and comparing bytes/return/advance with the model; an independent exact-rational oracle states the property directly.",
+   note="Trusted: Lean kernel; the model's reading of cvtsd2si (round-to-nearest-even, MXCSR default) and little-endian host; extract.py; harness; gcc/ASan. NaN inputs: only model/implementation agreement. Channel counts beyond those generated (1..8, 255 in thorough) rest on the theorem + model tie.",
+   tech="Lean 4 proof (integer arithmetic on float bit patterns) + differential correspondence vs ov_read_filter"),
 }
 
 NA_REASON = "not yet built in this round: model/theorems for this property are not in the tree yet (see DESIGN.md §8 for the plan)"
